@@ -72,6 +72,35 @@ theorem C08_complete (cap : Nat) (pre mid : List Step) (st₁ st₂ st₃ st₄ 
     · simp only at ho; rw [g] at ho; cases ho
   · cases he
 
+/-- The link's own view of "connected": the gate answered its `Subscribe`, the link has not called
+    `disconnect()` and has never asked for suspension (neither `connect(suspended = true)` nor
+    `suspend()`).  Then the slot is live at the gate: the gate only unsubscribes or suspends a slot
+    because its link asked for it. -/
+theorem C08_link_view_live (cap : Nat) (tr : List Step) (st : St) (h : run (init cap) tr = some st) (s : Slot)
+    (ha : (st.chans s).acked = true) (hd : (st.chans s).disc = false) (hs : (st.chans s).suspSent = false) :
+    st.live s := by
+  have w := invW_run h (invW_init cap)
+  refine ⟨ha, ?_, ?_⟩
+  · cases e : (st.chans s).unsubbed
+    · rfl
+    · have := w.unsub_disc s e; rw [hd] at this; cases this
+  · cases e : (st.chans s).susp
+    · rfl
+    · have := w.susp_sent s e; rw [hs] at this; cases this
+
+/-- Clause 2 in the property's own words: from the moment the connection is established until the link
+    disconnects or suspends, every update whose `update_data` call starts in that window is pushed to the
+    link by the time the call returns (unless the link closed its receiving end). -/
+theorem C08_complete_link_view (cap : Nat) (pre mid : List Step) (st₁ st₂ st₃ st₄ : St) (p : Pub) (s : Slot)
+    (h₁ : run (init cap) pre = some st₁)
+    (ha : (st₁.chans s).acked = true) (hd : (st₁.chans s).disc = false) (hss : (st₁.chans s).suspSent = false)
+    (hb : step st₁ (.pubBegin p) = some st₂)
+    (hm : run st₂ mid = some st₃) (hmid : ∀ x ∈ mid, x ≠ .pubEnd p)
+    (he : step st₃ (.pubEnd p) = some st₄)
+    (ho : (st₄.chans s).open_ = true) :
+    (p, (st₂.pubs p).seq) ∈ (st₄.chans s).hist :=
+  C08_complete cap pre mid st₁ st₂ st₃ st₄ p s h₁ (C08_link_view_live cap pre st₁ h₁ s ha hd hss) hb hm hmid he ho
+
 /-- What has been pushed is received once the link has drained its queue. -/
 theorem C08_drained (ch : Chan) (h : ch.nrecv = ch.hist.length) : ch.received = ch.hist := by
   simp [Chan.received, h]
